@@ -1,5 +1,6 @@
 import PtnModel.Props.C12Rule
 import PtnModel.Proofs.SvdExample
+import PtnModel.Proofs.SvdRecon
 /-!
 # C12 (block-SVD split): `split_matrix_svd(A, q0, q1, tol)`
 
@@ -18,6 +19,7 @@ Vocabulary (`PtnModel/Proofs/Qr*.lean`, `Svd*.lean`):
 * `Sparse M qa qb`, `blocks A q0 q1` : as for C11 (the same blocks are handed to the kernel `dsvd`);
 * `spectrum dsvd A q0 q1` : the concatenation of the spectra of the blocks, `(blocks A q0 q1).flatMap (dsvd ·).2.1`
   (`split_spectrum`); `retainedBondIndices dnorm dargsort (spectrum …) tol` are the kept indices;
+* `tripleF ι u s v i j` : entry `(i, j)` of `u · diag(ι s) · v`, i.e. `∑ t < u.n, u[i,t] * ι s[t] * v[t,j]`;
 * `SvdShape / SvdProduct ι / SvdIsoU / SvdIsoV / SvdNonneg dsvd A q0 q1` : the clauses of the kernel contract
   required at the matrices of `blocks A q0 q1` only (fields of `SVDContractOn`).
 
@@ -230,6 +232,50 @@ theorem split_rule_tol0 (hshape : SvdShape dsvd A q0 q1)
   intro i _
   by_cases h : S[i]?.getD 0 = 0 <;> simp [Option.guard, List.getD_eq_getElem?_getD, h]
 
+/-! ## (5) reconstruction and truncation error -/
+
+/-- **(5a)** Without effective truncation — every discarded index (if any) carries a zero singular value, e.g.
+all indices are kept — the returned factors reproduce the matrix: `u · diag(s) · v = A` on in-range entries.
+Holds in both branches. -/
+theorem split_reconstruct_full (hc : SVDContractOn ι dsvd A q0 q1)
+    (hq0 : q0.length = A.m) (hq1 : q1.length = A.n) (hm : 0 < A.m) (hn : 0 < A.n) (hsp : Sparse A q0 q1)
+    {u v : Mat 𝕜} {s : List ρ} {q : List Int}
+    (hrun : splitMatrixSvd dsvd dnorm dargsort A q0 q1 tol = .ok (u, s, v, q))
+    (hdisc : ∀ p, p < (spectrum dsvd A q0 q1).length →
+      p ∉ retainedBondIndices dnorm dargsort (spectrum dsvd A q0 q1) tol → (spectrum dsvd A q0 q1).getD p 0 = 0)
+    {i j : Nat} (hi : i < A.m) (hj : j < A.n) : tripleF ι u s v i j = A.f i j :=
+  reconstruct' dnorm dargsort tol ι hc.shape hc.product ⟨hq0, hq1, hm, hn, hsp⟩ hrun hdisc hi hj
+
+/-- **(5b)** Truncation-error identity: the squared Frobenius norm of `A - u · diag(s) · v` (sum over entries of
+`star e * e`) equals the sum of the squares of the discarded singular values of the concatenated spectrum.
+`hι` says that singular values are real (`star (ι x) = ι x`).  Holds in both branches. -/
+theorem split_error_identity (hι : ∀ x, star (ι x) = ι x) (hc : SVDContractOn ι dsvd A q0 q1)
+    (hq0 : q0.length = A.m) (hq1 : q1.length = A.n) (hm : 0 < A.m) (hn : 0 < A.n) (hsp : Sparse A q0 q1)
+    {u v : Mat 𝕜} {s : List ρ} {q : List Int}
+    (hrun : splitMatrixSvd dsvd dnorm dargsort A q0 q1 tol = .ok (u, s, v, q)) :
+    ∑ i ∈ range A.m, ∑ j ∈ range A.n,
+        star (A.f i j - tripleF ι u s v i j) * (A.f i j - tripleF ι u s v i j) =
+      ∑ p ∈ range (spectrum dsvd A q0 q1).length,
+        if p ∈ retainedBondIndices dnorm dargsort (spectrum dsvd A q0 q1) tol then 0
+        else ι ((spectrum dsvd A q0 q1).getD p 0) * ι ((spectrum dsvd A q0 q1).getD p 0) :=
+  error_identity' dnorm dargsort tol ι hι hc.shape hc.product hc.isoU hc.isoV ⟨hq0, hq1, hm, hn, hsp⟩ hrun
+
+/-- **(5c)** Zero tolerance is exact: `u · diag(s) · v = A` (the discarded values are exactly the zeros of the
+spectrum, `rule_tol0`). -/
+theorem split_tol0_exact (hc : SVDContractOn ι dsvd A q0 q1)
+    (hq0 : q0.length = A.m) (hq1 : q1.length = A.n) (hm : 0 < A.m) (hn : 0 < A.n) (hsp : Sparse A q0 q1)
+    {u v : Mat 𝕜} {s : List ρ} {q : List Int}
+    (hrun : splitMatrixSvd dsvd dnorm dargsort A q0 q1 0 = .ok (u, s, v, q))
+    (hnorm : NormContract (spectrum dsvd A q0 q1) (dnorm (spectrum dsvd A q0 q1)))
+    (hsort : SortContract (sortKeys (spectrum dsvd A q0 q1) (dnorm (spectrum dsvd A q0 q1)))
+      (dargsort (sortKeys (spectrum dsvd A q0 q1) (dnorm (spectrum dsvd A q0 q1)))))
+    {i j : Nat} (hi : i < A.m) (hj : j < A.n) : tripleF ι u s v i j = A.f i j := by
+  refine split_reconstruct_full dnorm dargsort 0 hc hq0 hq1 hm hn hsp hrun ?_ hi hj
+  intro p hp hk
+  rw [rule_tol0 dnorm dargsort _ hnorm hsort] at hk
+  by_contra hne
+  exact hk (List.mem_filter.2 ⟨List.mem_range.2 hp, by simpa using hne⟩)
+
 /-! ## (6) no shared charge -/
 
 /-- **(6)** No shared quantum number: whatever the kernels, the result is `u = e₀`, `s = [0]`, `v = 0`,
@@ -294,7 +340,22 @@ example : ∃ (u v : Mat ℚ) (s : List ℚ) (q : List Int),
   exact ⟨u, v, s, q, sx_contract, sx_input.hq0, sx_input.hq1, sx_input.hm, sx_input.hn, sx_input.hsp,
     by rw [sx_shared]; simp, by norm_num, hrun, sx_spectrum, sx_kept⟩
 
-/-- non-vacuity of `split_rule_tol0`: zero tolerance on the example keeps both values -/
+/-- non-vacuity of `split_error_identity` and `split_reconstruct_full`: for the example `star` is trivial on `ℚ`
+(`hι`), and with `tol = 0` nothing is discarded, so `hdisc` holds -/
+example : (∀ x : ℚ, star ((RingHom.id ℚ) x) = (RingHom.id ℚ) x) ∧
+    ∀ p, p < (spectrum sxDsvd sxA [1, 0] [0, 1, 0]).length →
+      p ∉ retainedBondIndices (fun _ => (13 : ℚ)) (fun _ => [0, 1]) (spectrum sxDsvd sxA [1, 0] [0, 1, 0]) 0 →
+      (spectrum sxDsvd sxA [1, 0] [0, 1, 0]).getD p 0 = 0 := by
+  refine ⟨fun x => rfl, ?_⟩
+  have hk : retainedBondIndices (fun _ => (13 : ℚ)) (fun _ => [0, 1]) (spectrum sxDsvd sxA [1, 0] [0, 1, 0]) 0 = [0, 1] :=
+    sx_kept0
+  rw [hk, sx_spectrum]
+  intro p hp hnot
+  simp only [List.length_cons, List.length_nil] at hp
+  have : p = 0 ∨ p = 1 := by omega
+  rcases this with rfl | rfl <;> simp at hnot
+
+/-- non-vacuity of `split_rule_tol0`, `split_tol0_exact`: zero tolerance on the example keeps both values -/
 example : ∃ (u v : Mat ℚ) (s : List ℚ) (q : List Int),
     splitMatrixSvd sxDsvd (fun _ => (13 : ℚ)) (fun _ => [0, 1]) sxA [1, 0] [0, 1, 0] 0 = .ok (u, s, v, q) ∧
     retainedBondIndices (fun _ => (13 : ℚ)) (fun _ => [0, 1]) (spectrum sxDsvd sxA [1, 0] [0, 1, 0]) 0 = [0, 1] := by
